@@ -13,7 +13,7 @@ REPO = os.environ.get("VERIF_REPO", "/repo")
 FLAVOURS = {
     # name: (compiler, cflags, ldflags)
     "plain": ("g++", "-O1 -g1 -DNDEBUG", ""),
-    "asan": ("clang++-14", "-O1 -g1 -DNDEBUG -fsanitize=address,undefined -fno-sanitize-recover=undefined -fno-omit-frame-pointer", "-fsanitize=address,undefined"),
+    "asan": ("clang++-14", "-O1 -g1 -DNDEBUG -fsanitize=address,undefined -fno-sanitize=nonnull-attribute -fno-sanitize-recover=undefined -fno-omit-frame-pointer", "-fsanitize=address,undefined"),
     "tsan": ("clang++-14", "-O1 -g1 -DNDEBUG -fsanitize=thread -fno-omit-frame-pointer", "-fsanitize=thread"),
     "nohook": ("g++", "-O1 -g1 -DNDEBUG", ""),   # guard OFF (used to show hooks are inert)
 }
